@@ -40,7 +40,12 @@ def entries(rng, n, integer):
     return [rng.choice([0.0, -0.0, 1.0, -1.0, 0.5, rng.uniform(-1, 1)]) for _ in range(n)]
 
 
+SPECIAL = [0.0, -0.0, float("inf"), float("-inf"), float("nan"), 1.0, -2.5, 3.0]
+
+
 def mat(rng, r, c, integer):
+    if integer == "special":
+        return ("%d %d %s" % (r, c, " ".join(hx(rng.choice(SPECIAL)) for _ in range(r * c)))).strip()
     return ("%d %d %s" % (r, c, " ".join(hx(v) for v in entries(rng, r * c, integer)))).strip()
 
 
@@ -319,6 +324,26 @@ def generate(seed, tier):
         f = rng.random()
         if f < 0.08:
             cases.append(store_case(rng, "store%d" % cidx))
+            continue
+        if f < 0.12:
+            # IEEE special values (signed zeros, infinities, NaN): only the bit-exact tie with the Float
+            # instantiation is judged (the theorems are about real numbers)
+            ops = []
+            for _ in range(rng.randint(3, 6)):
+                k = rng.choice(["whichmax", "whichmin", "max", "min", "sum", "transpose", "copy", "issym", "scale", "mult", "add", "had", "fill"])
+                r, c = dim(rng, 4), dim(rng, 4)
+                if k in ("mult",):
+                    n = dim(rng, 4)
+                    ops.append("mult %s %s" % (mat(rng, r, n, "special"), mat(rng, n, c, "special")))
+                elif k in ("add", "had"):
+                    ops.append("%s %s %s" % (k, mat(rng, r, c, "special"), mat(rng, r, c, "special")))
+                elif k == "scale":
+                    ops.append("scale %s %s %s" % (mat(rng, r, c, "special"), hx(rng.choice([1.0, 1.0, -1.0, 2.0])), hx(rng.choice([0.0, 0.0, -0.0, 1.0]))))
+                elif k == "fill":
+                    ops.append("fill %s %s" % (mat(rng, r, c, "special"), hx(-0.0)))
+                else:
+                    ops.append("%s %s" % (k, mat(rng, r, c, "special")))
+            cases.append([case_line(rng, "special%d" % cidx)] + ops)
             continue
         integer = rng.random() < 0.6
         ops = [one_op(rng, integer) for _ in range(rng.randint(3, 7))]
